@@ -314,7 +314,11 @@ def event_from_json(event_json: dict) -> Event:
     ):
         # a tag that is a string would be served as a list of its characters
         raise ValueError("tags")
-    return Event(**event_json)
+    event = Event(**event_json)
+    if event.created_at != event_json["created_at"]:
+        # Event() replaces a created_at of 0 by the current time
+        raise ValueError("created_at")
+    return event
 
 
 class BaseSubscription:
